@@ -21,7 +21,7 @@ CLAIMED = {
              'theorems as reflective side conditions; model tied to the code by running the extracted model and the real renderer on parsed and '
              'on loaded hostile trees and on every code point.',
         note='Trusted: Coq kernel, extraction, translator gen_escapes.py (Python ast), hand-written structural model of the templates '
-             '(correspondence-checked), tree dumper/loader. Hypothesis wf_attrs (heading level 1..6) is monitored on real trees. '
+             '(correspondence-checked), tree dumper/loader. The hypothesis wf_attrs (heading level 1..6) is proved for every tree the parser model produces (regex group-length analysis), so the theorem holds for every input. '
              'String-level lexing of the serialised items is checked by the extracted lexer on real output, not yet proved.',
         technique='Coq proof (induction over token trees; reflective side conditions on regenerated escape data) + extracted-model correspondence',
         design='5/C08'),
